@@ -82,8 +82,10 @@ RefactorVerdict(e, js) ==
        \cup (IF ~ContainsRef(e.in, e.alias) /\ ~((e.same1 \/ Val(f1) = Val(e.in)) /\ IsTrueNode(f2)) THEN {"UnchangedWhenAliasAbsent"} ELSE {})
        \cup (IF IsPred(e.in) # IsPred(f1) \/ IsPred(e.in) # IsPred(f2) THEN {"SameKind"} ELSE {})
        \cup {"WT." \o c : c \in WT(f1) \cup WT(f2)}
-       \cup (IF \E i \in 1..Len(js) : js[i] = "differ" THEN {"Equivalent"} ELSE {})
-       \cup (IF \E i \in 1..Len(js) : js[i] = "undef" THEN {"OutputDefined"} ELSE {})
+       \cup (IF TypeOf(e.in) = T_BOOL /\ \E i \in 1..Len(js) : js[i] = "differ" THEN {"Equivalent"} ELSE {})
+       \cup (IF TypeOf(e.in) = T_BOOL /\ \E i \in 1..Len(js) : js[i] = "undef" THEN {"OutputDefined"} ELSE {})
+       \cup (IF TypeOf(e.in) # T_BOOL /\ ~(IsTrueNode(f1) /\ Val(f2) = Val(e.in)) /\ ~(IsTrueNode(f2) /\ Val(f1) = Val(e.in))
+             THEN {"SameType"} ELSE {})
 
 (* --------------------------------------------- negate / join / replacements (C13) *)
 NotVal(v) == KNot(v)
